@@ -17,6 +17,31 @@ import sys
 
 VCODE = {'F': 0, 'N': 1, 'B': 2, 'T': 3}
 
+
+class Hang(Exception):
+    "a call into the implementation did not return within the time limit"
+
+
+class time_limit:
+    "with time_limit(s): ...  raises Hang inside the block after s seconds of CPU time (SIGVTALRM)."
+
+    def __init__(self, seconds):
+        self.seconds = seconds
+
+    def _fire(self, *a):
+        raise Hang(f'no result after {self.seconds}s')
+
+    def __enter__(self):
+        import signal
+        self.old = signal.signal(signal.SIGVTALRM, self._fire)
+        signal.setitimer(signal.ITIMER_VIRTUAL, self.seconds)
+
+    def __exit__(self, *exc):
+        import signal
+        signal.setitimer(signal.ITIMER_VIRTUAL, 0)
+        signal.signal(signal.SIGVTALRM, self.old)
+        return False
+
 # ---------------------------------------------------------------- conversion
 
 def _lang():
@@ -146,12 +171,14 @@ def gen_tables(logic):
                 cs = [L.Constant(i, 0) for i in range(n)]
                 for tup in itertools.product(vals, repeat=n):
                     m = logic.Model()
-                    for c, v in zip(cs, tup):
-                        m.set_predicated_value(L.Predicated(F, (c,)), v)
-                    m.finish()
-                    order = [c.index for c in m.constants]
+                    order = list(range(n))
                     try:
-                        r = m.value_of(s).name
+                        with time_limit(5):
+                            for c, v in zip(cs, tup):
+                                m.set_predicated_value(L.Predicated(F, (c,)), v)
+                            m.finish()
+                            order = [c.index for c in m.constants]
+                            r = m.value_of(s).name
                     except Exception as e:
                         r = '!' + type(e).__name__
                     rows.append([[tup[i].name for i in order], r])
@@ -163,17 +190,17 @@ def gen_tables(logic):
             for n in range(0, 4):
                 for tup in itertools.product(vals, repeat=n):
                     m = logic.Model()
-                    for i, v in enumerate(tup):
-                        m.R.add((0, 10 + i))
-                        m.set_atomic_value(A, v, world=10 + i)
-                    # keep world 0 free of reflexive/serial additions in the list: record R[0]
-                    m.finish()
-                    ws = list(m.R[0])
                     try:
-                        seq = [m.value_of(A, world=w).name for w in ws]
-                        r = m.value_of(s, world=0).name
+                        with time_limit(5):
+                            for i, v in enumerate(tup):
+                                m.R.add((0, 10 + i))
+                                m.set_atomic_value(A, v, world=10 + i)
+                            m.finish()
+                            ws = list(m.R[0])
+                            seq = [m.value_of(A, world=w).name for w in ws]
+                            r = m.value_of(s, world=0).name
                     except Exception as e:
-                        seq, r = [], '!' + type(e).__name__
+                        seq, r = [x.name for x in tup], '!' + type(e).__name__
                     rows.append([seq, r])
             out[o.name] = rows
     return out
@@ -236,17 +263,18 @@ def run_case(registry, case, want_data=True):
     m = logic.Model()
     out = dict(err=None)
     try:
-        for i, op in enumerate(case['ops']):
+        with time_limit(10):
+            for i, op in enumerate(case['ops']):
+                try:
+                    apply_op(m, op)
+                except Exception as e:
+                    out['err'] = [i, type(e).__name__]
+                    raise
             try:
-                apply_op(m, op)
+                m.finish()
             except Exception as e:
-                out['err'] = [i, type(e).__name__]
+                out['err'] = ['finish', type(e).__name__]
                 raise
-        try:
-            m.finish()
-        except Exception as e:
-            out['err'] = ['finish', type(e).__name__]
-            raise
     except Exception:
         pass
     out['cord'] = [c.subscript * 4 + c.index for c in m.constants]
@@ -268,7 +296,10 @@ def run_case(registry, case, want_data=True):
         row = []
         for w in case['worlds']:
             try:
-                row.append(VCODE[m.value_of(s, world=w).name])
+                with time_limit(10):
+                    row.append(VCODE[m.value_of(s, world=w).name])
+            except Hang:
+                row.append(7)
             except Exception as e:
                 row.append(8)
         vals.append(row)
